@@ -330,11 +330,37 @@ theorem selectTxChannel_safe {σ} (g : Rng σ) (rs : RegionState) (dr : DR) (fra
       | join => exact hgn
       | data =>
         simp only
-        split
-        · exact hgn
-        · simp only [hidx, ok_bind, unwrapDatarate_some]
-          obtain ⟨hfd1, hfd2⟩ := firstDataChannel_wf g p.jc s hjc
-          generalize JoinChannels.firstDataChannel g p.jc s = fd at hfd1 hfd2 ⊢
+        have hbias : Safe (if p.jc.hasBiasAndNotExhausted = true then do
+              let __x ← JoinChannels.getNextChannel g p.jc s
+              let en ← p.mask.isEnabled __x.fst
+              (pure (if en = true then some __x.fst else none, __x.2.fst, __x.2.snd) : M (Option Nat × JoinChannels × σ))
+            else pure (none, p.jc, s))
+            (fun x => jcWF x.2.1 = true ∧ ∀ ch, x.1 = some ch → ch < 72) := by
+          split
+          · refine Safe.bind (getNextChannel_safe g p.jc s hjc) ?_
+            intro ⟨ch, jc', s'⟩ ⟨h1, h2⟩
+            simp only at h1 h2 ⊢
+            refine Safe.tbind (isEnabled_tot p.mask ch hm h1) (fun en _ => ?_)
+            refine Safe.pure ⟨h2, fun ch' e => ?_⟩
+            cases en
+            · simp at e
+            · simp only [if_true, Option.some.injEq] at e; omega
+          · exact Safe.pure ⟨hjc, fun ch e => by cases e⟩
+        refine Safe.bind hbias ?_
+        intro ⟨biased, jc0, s0⟩ ⟨hjc0, hb72⟩
+        simp only at hjc0 hb72 ⊢
+        cases biased with
+        | some ch =>
+          simp only
+          refine Safe.pure ⟨?_, hb72 ch rfl, hjc0, hm⟩
+          simp only
+          split
+          · exact (joinDr_defined rs.id hfx).1
+          · exact (joinDr_defined rs.id hfx).2
+        | none =>
+          simp only [hidx, ok_bind, unwrapDatarate_some]
+          obtain ⟨hfd1, hfd2⟩ := firstDataChannel_wf g jc0 s0 hjc0
+          generalize JoinChannels.firstDataChannel g jc0 s0 = fd at hfd1 hfd2 ⊢
           obtain ⟨pref, jc', s'⟩ := fd
           simp only at hfd1 hfd2 ⊢
           have hup : Tot (match pref with
